@@ -37,18 +37,77 @@ Qed.
 
 (* ---- the label loop ---- *)
 
-Lemma pn_loop_inv : forall rest lab off cm c ws need ws' o cm' need' ptr,
-  pn_loop rest lab off cm c ws need = Some (ws', o, cm', need', ptr) ->
+Lemma dec_len_cons c r : dec_len (c :: r) =
+  if (c =? backslash)%N then
+    match r with
+    | [] => 0
+    | c1 :: r1 =>
+        match r1 with
+        | c2 :: c3 :: r3 => if is_digit c1 && is_digit c2 && is_digit c3 then S (dec_len r3) else S (dec_len r1)
+        | _ => S (dec_len r1)
+        end
+    end
+  else S (dec_len r).
+Proof. reflexivity. Qed.
+
+Lemma dec_len_le_aux : forall n s, length s <= n -> dec_len s <= length s.
+Proof.
+  induction n as [|n IH]; intros s Hn; [destruct s; [cbn; lia|cbn in Hn; lia]|].
+  destruct s as [|c r]; [cbn; lia|]. rewrite dec_len_cons. cbn [length] in *.
+  destruct (c =? backslash)%N; [|pose proof (IH r ltac:(lia)); lia].
+  destruct r as [|c1 r1]; [lia|]. cbn [length] in *.
+  destruct r1 as [|c2 [|c3 r3]]; cbn [length] in *.
+  - pose proof (IH [] ltac:(cbn; lia)). cbn [length] in *. lia.
+  - pose proof (IH [c2] ltac:(cbn; lia)). cbn [length] in *. lia.
+  - destruct (is_digit c1 && is_digit c2 && is_digit c3).
+    + pose proof (IH r3 ltac:(lia)). lia.
+    + pose proof (IH (c2 :: c3 :: r3) ltac:(cbn [length]; lia)). cbn [length] in *. lia.
+Qed.
+Lemma dec_len_le s : dec_len s <= length s.
+Proof. apply (dec_len_le_aux (length s)). lia. Qed.
+
+(* the invariant of the label loop, with the DECODED length of what is still to be read as the
+   measure: that is what escapedNameLen counts, so Len() bounds the packer for escaped names too *)
+Lemma pn_loop_inv_aux : forall n rest, length rest <= n -> forall lab key off cm c ws need ws' o cm' need' ptr,
+  pn_loop rest lab key off cm c ws need = Some (ws', o, cm', need', ptr) ->
   writes_within ws need ->
   writes_within ws' need' /\ need <= need' /\
-  need' <= Nat.max need (off + length lab + length rest) /\
-  o <= off + length lab + length rest /\
+  need' <= Nat.max need (off + length lab + dec_len rest) /\
+  o <= off + length lab + dec_len rest /\
   (ptr <> None -> o + 2 <= need').
 Proof.
-  induction rest as [|ch r IH]; intros lab off cm c ws need ws' o cm' need' ptr H Hw.
-  - cbn in H. inversion H; subst. repeat split; auto; try lia. intros Hc; congruence.
-  - cbn [pn_loop] in H.
-    destruct (ch =? backslash)%N; [discriminate|].
+  assert (Hnil : forall lab key off cm c ws need ws' o cm' need' ptr,
+            pn_loop [] lab key off cm c ws need = Some (ws', o, cm', need', ptr) -> writes_within ws need ->
+            writes_within ws' need' /\ need <= need' /\ need' <= Nat.max need (off + length lab + dec_len []) /\
+            o <= off + length lab + dec_len [] /\ (ptr <> None -> o + 2 <= need')).
+  { intros lab key off cm c ws need ws' o cm' need' ptr H Hw. cbn [pn_loop] in H. inversion H; subst.
+    repeat split; auto; try lia. intros Hc; congruence. }
+  induction n as [|n IH]; intros [|ch r] Hn lab key off cm c ws need ws' o cm' need' ptr H Hw.
+  - apply (Hnil _ _ _ _ _ _ _ _ _ _ _ _ H Hw).
+  - cbn [length] in Hn; lia.
+  - apply (Hnil _ _ _ _ _ _ _ _ _ _ _ _ H Hw).
+  - cbn [pn_loop] in H. rewrite dec_len_cons. cbn [length] in Hn.
+    destruct (ch =? backslash)%N.
+    { destruct r as [|c1 r1]; [discriminate|].
+      assert (Hw1 : writes_within ws (Nat.max need (off + 1))) by (apply (writes_within_mono ws need); [assumption|lia]).
+      assert (Hesc : forall rr b, pn_loop rr (lab ++ [b]) key off cm c ws (Nat.max need (off + 1)) = Some (ws', o, cm', need', ptr) ->
+                     (forall lab' key' off' cm0 c0 ws0 need0 ws0' o0 cm0' need0' ptr0,
+                        pn_loop rr lab' key' off' cm0 c0 ws0 need0 = Some (ws0', o0, cm0', need0', ptr0) ->
+                        writes_within ws0 need0 ->
+                        writes_within ws0' need0' /\ need0 <= need0' /\
+                        need0' <= Nat.max need0 (off' + length lab' + dec_len rr) /\
+                        o0 <= off' + length lab' + dec_len rr /\ (ptr0 <> None -> o0 + 2 <= need0')) ->
+                     writes_within ws' need' /\ need <= need' /\
+                     need' <= Nat.max need (off + length lab + S (dec_len rr)) /\
+                     o <= off + length lab + S (dec_len rr) /\ (ptr <> None -> o + 2 <= need')).
+      { intros rr b Hx IHrr. destruct (IHrr _ _ _ _ _ _ _ _ _ _ _ _ Hx Hw1) as (A & B & C & D & E).
+        rewrite app_length in *. cbn [length] in *. repeat split; auto; lia. }
+      destruct r1 as [|c2 [|c3 r3]]; cbn [length] in Hn.
+      - apply (Hesc [] c1 H). apply (IH []). cbn; lia.
+      - apply (Hesc [c2] c1 H). apply (IH [c2]). cbn; lia.
+      - destruct (is_digit c1 && is_digit c2 && is_digit c3).
+        + apply (Hesc r3 _ H). apply (IH r3). lia.
+        + apply (Hesc (c2 :: c3 :: r3) c1 H). apply (IH (c2 :: c3 :: r3)). cbn [length]; lia. }
     destruct (ch =? dot)%N.
     + destruct lab as [|l0 lab']; [discriminate|].
       set (lab := l0 :: lab') in *.
@@ -58,25 +117,38 @@ Proof.
       assert (Hw1 : writes_within (ws ++ [(off, N.of_nat (length lab) :: lab)]) need1).
       { apply writes_within_app; [apply (writes_within_mono ws need); [assumption|subst need1; lia]|].
         apply writes_within_one. cbn [length]. subst need1. lia. }
-      assert (Hgo : forall cmx, pn_loop r [] (off + 1 + length lab) cmx c (ws ++ [(off, N.of_nat (length lab) :: lab)]) need1
+      assert (Hgo : forall cmx, pn_loop r [] r (off + 1 + length lab) cmx c (ws ++ [(off, N.of_nat (length lab) :: lab)]) need1
                                 = Some (ws', o, cm', need', ptr) ->
                     writes_within ws' need' /\ need <= need' /\
-                    need' <= Nat.max need (off + length lab + length (ch :: r)) /\
-                    o <= off + length lab + length (ch :: r) /\ (ptr <> None -> o + 2 <= need')).
-      { intros cmx Hx. destruct (IH _ _ _ _ _ _ _ _ _ _ _ Hx Hw1) as (A & B & C & D & E).
+                    need' <= Nat.max need (off + length lab + S (dec_len r)) /\
+                    o <= off + length lab + S (dec_len r) /\ (ptr <> None -> o + 2 <= need')).
+      { intros cmx Hx. destruct (IH r ltac:(lia) _ _ _ _ _ _ _ _ _ _ _ _ Hx Hw1) as (A & B & C & D & E).
         cbn [length] in *. subst need1. repeat split; auto; lia. }
       destruct cm as [d|]; [|apply (Hgo None); exact H].
-      destruct (dict_find d (lab ++ ch :: r)) as [p|].
+      destruct (dict_find d key) as [p|].
       * destruct c; [|apply (Hgo (Some d)); exact H].
         inversion H; subst. cbn [length]. subst need1.
         split; [apply (writes_within_mono ws' need); [assumption|lia]|]. repeat split; try lia.
-      * destruct (off <? max_compression_offset); [apply (Hgo (Some ((lab ++ ch :: r, off) :: d)))|apply (Hgo (Some d))]; exact H.
-    + destruct (IH _ _ _ _ _ _ _ _ _ _ _ H Hw) as (A & B & C & D & E).
+      * destruct (off <? max_compression_offset); [apply (Hgo (Some ((key, off) :: d)))|apply (Hgo (Some d))]; exact H.
+    + destruct (IH r ltac:(lia) _ _ _ _ _ _ _ _ _ _ _ _ H Hw) as (A & B & C & D & E).
       rewrite app_length in *. cbn [length] in *. repeat split; auto; lia.
 Qed.
 
+Lemma pn_loop_inv : forall rest lab key off cm c ws need ws' o cm' need' ptr,
+  pn_loop rest lab key off cm c ws need = Some (ws', o, cm', need', ptr) ->
+  writes_within ws need ->
+  writes_within ws' need' /\ need <= need' /\
+  need' <= Nat.max need (off + length lab + dec_len rest) /\
+  o <= off + length lab + dec_len rest /\
+  (ptr <> None -> o + 2 <= need').
+Proof. intros rest. apply (pn_loop_inv_aux (length rest)). lia. Qed.
+
 Lemma name_len_pos s : 1 <= name_len s.
-Proof. unfold name_len. destruct s; [lia|]. destruct (bytes_eqb _ _); cbn [length]; lia. Qed.
+Proof. unfold name_len. destruct s; [lia|]. destruct (bytes_eqb _ _); lia. Qed.
+
+(* Len() never counts more than the text: an escape stands for fewer octets than it is written with *)
+Lemma name_len_le_text s : name_len s <= length s + 1.
+Proof. unfold name_len. destruct s; [cbn; lia|]. destruct (bytes_eqb _ _); [cbn [length]; lia|]. pose proof (dec_len_le (n :: s)). lia. Qed.
 
 (* what a name plan guarantees, whatever the dictionary *)
 Lemma plan_name_inv : forall s off cm c pl, plan_name s off cm c = Some pl ->
@@ -88,15 +160,15 @@ Proof.
   intros s off cm c pl H. unfold plan_name in H.
   destruct s as [|s0 s']; [inversion H; subst; cbn; repeat split; try constructor; lia|].
   set (s := s0 :: s') in *.
-  destruct (ends_with_dot s); cbn [negb] in H; [|discriminate].
+  destruct (is_fqdn s); cbn [negb] in H; [|discriminate].
   destruct (bytes_eqb s [dot]) eqn:Er.
-  - assert (Hnl : name_len s = 1) by (change (name_len s) with (if bytes_eqb s [dot] then 1 else length s + 1); rewrite Er; reflexivity).
+  - assert (Hnl : name_len s = 1) by (change (name_len s) with (if bytes_eqb s [dot] then 1 else dec_len s + 1); rewrite Er; reflexivity).
     inversion H; subst. cbn [p_writes p_off p_cm p_need]. rewrite Hnl.
     split; [apply writes_within_one; cbn [length]; lia|]. repeat split; lia.
-  - assert (Hnl : name_len s = length s + 1) by (change (name_len s) with (if bytes_eqb s [dot] then 1 else length s + 1); rewrite Er; reflexivity).
-    destruct (pn_loop s [] off cm c [] 0) as [[[[[ws o] cm'] need] ptr]|] eqn:E; [|discriminate].
-    destruct (pn_loop_inv _ _ _ _ _ _ _ _ _ _ _ _ E (Forall_nil _)) as (A & B & C & D & F).
-    cbn [length] in C, D. change (length (s0 :: s')) with (length s) in C, D. rewrite Hnl.
+  - assert (Hnl : name_len s = dec_len s + 1) by (change (name_len s) with (if bytes_eqb s [dot] then 1 else dec_len s + 1); rewrite Er; reflexivity).
+    destruct (pn_loop s [] s off cm c [] 0) as [[[[[ws o] cm'] need] ptr]|] eqn:E; [|discriminate].
+    destruct (pn_loop_inv _ _ _ _ _ _ _ _ _ _ _ _ _ E (Forall_nil _)) as (A & B & C & D & F).
+    cbn [length] in C, D. rewrite Hnl.
     destruct ptr as [p|]; inversion H; subst; cbn [p_writes p_off p_cm p_need].
     + specialize (F ltac:(discriminate)).
       split; [apply writes_within_app; [assumption|]; apply writes_within_one; rewrite u16_bytes_length; lia|].
